@@ -33,7 +33,98 @@ def ops(run, prefix='C14'):
     return T
 
 
+# ---- Crystal_ReadFile: stream model, case split by the kind of every line (harness/c14_read.c)
+import subprocess, itertools
+from vlib import core
+KINDS = ['S_OK', 'S_BAD', 'UCELL_OK', 'UCELL_BAD', 'L', 'HASH', 'ATOM_OK', 'ATOM_BAD', 'BLANK', 'TEXT']
+NK = len(KINDS)
+CANON = [0, 2, 4, 6, 5]              # '#S', '#UCELL', '#L', one atom, a terminating comment line
+
+
+def code(kinds):
+    v = 0
+    for k in reversed(kinds): v = v * NK + k
+    return v
+
+
+def file_families(tier):
+    """(family name, list of (number of lines, code, last line ends in newline))"""
+    short = []
+    for n in range(0, 4 if tier == 'quick' else 5):
+        for t in itertools.product(range(NK), repeat=n): short.append((n, code(t), 1))
+    near = {tuple(CANON)}
+    for i in range(len(CANON)):
+        near.add(tuple(CANON[:i] + CANON[i + 1:]))                                   # one line missing
+        for k in range(NK): near.add(tuple(CANON[:i] + [k] + CANON[i + 1:]))         # one line replaced
+    for i in range(len(CANON) + 1):
+        for k in range(NK): near.add(tuple(CANON[:i] + [k] + CANON[i:]))             # one line inserted
+    nearl = sorted(near)
+    nofinalnl = [(len(t), code(t), 0) for t in nearl if len(t) > 0]
+    return [('short', short), ('near', [(len(t), code(t), 1) for t in nearl]), ('near-no-final-newline', nofinalnl)]
+
+
+def readfile(run, prefix='C14'):
+    fns = ['Crystal_ReadFile', 'Crystal_ExtendArray', 'Crystal_ArrayFree', 'Crystal_UnitCellVolume', 'xrayvars.c:compareCrystalStructs']
+    aux = [run.src('xraylib-error.c'), run.src('xraylib-aux.c'), run.src('xrayvars.c')]
+    T = []
+    def unit(na, n):
+        out = []
+        for wit in (False, True):
+            gb = os.path.join(run.tmp, 'c14read_%d_%d%s.gb' % (na, n, '_w' if wit else ''))
+            cmd = ['goto-cc'] + run.inc + ['-DLINES_MAX=6', '-DSHAPE_NA=%d' % na, '-DSHAPE_N=%d' % n] + (['-DWITNESS'] if wit else []) + [run.harness('c14_read.c')] + aux + ['-o', gb]
+            r = subprocess.run(cmd, capture_output=True, text=True)
+            if r.returncode != 0: raise core.BuildError('goto-cc c14_read.c: ' + (r.stderr or r.stdout)[-2000:])
+            out.append(gb)
+        return out
+    units = {}
+    def batch(oid, na, n, name, files, wit, what_extra):
+        try:
+            if (na, n) not in units: units[(na, n)] = unit(na, n)
+            gbs = []
+            for w in ((False, True) if wit else (False,)):
+                tr = os.path.join(run.tmp, 'c14rt_%s%s.gb' % (oid.replace('/', '_'), '_w' if w else ''))
+                lst = ' '.join('one_file(%d, %dL, %d);' % f for f in files)
+                r = subprocess.run(['goto-cc'] + run.inc + ['-DFILE_CALLS=' + lst, "-DFILE_NAME='%s'" % name, '-c', run.harness('c14_read_tramp.c'), '-o', tr], capture_output=True, text=True)
+                if r.returncode != 0: raise core.BuildError('goto-cc c14_read_tramp.c: ' + (r.stderr or r.stdout)[-1500:])
+                ab = tr[:-3] + '_l.gb'
+                r = subprocess.run(['goto-cc', units[(na, n)][1 if w else 0], tr, '-o', ab], capture_output=True, text=True)
+                if r.returncode != 0: raise core.BuildError('link: ' + (r.stderr or r.stdout)[-1500:])
+                gbs.append(ab)
+            if len(gbs) == 1: gbs.append(None)
+        except core.BuildError as e:
+            ob = core.Ob(oid, 'A:cbmc', fns, '', 'ReadFile batch'); ob.reason = 'BUILD: ' + str(e); run.add_ob(ob); return ob
+        ob = run.cbmc(oid, [], 'harness_readfile', unwind=12, backends=('cadical',), prebuilt=tuple(gbs), witness=wit, leak=True, object_bits=12,
+                      flags=('--max-field-sensitivity-array-size', '600'), functions=fns, timeout=600 if run.tier == 'quick' else 1800,
+                      bounds='%d files of <= 6 lines (%s), every line one of %d kinds; pre-state: user array of capacity %d with %d entries ("b", "d"); every crystal of the file is named "%s"; cell lengths on a grid, atom records symbolic'
+                             % (len(files), what_extra, NK, na, n, name),
+                      what='Crystal_ReadFile: a rejected file leaves the collection as it was (count and entries) with one error; an accepted file leaves a strictly sorted array that still holds every previous entry, new entries carry a name / cell / atoms of the file and a recomputed volume; the stream is closed exactly once; ArrayFree then releases everything (leak, double free, bounds)',
+                      stubs=['stdio model: stream = sequence of lines; fgets NULL at EOF leaves the buffer untouched; ftell/fseek by line; fscanf consumes one atom line, skips blank lines; sscanf conversions by line kind', 'libm stand-ins as in the container harness'])
+        for f in gbs:
+            try:
+                if f: os.unlink(f)
+            except OSError: pass
+        return ob
+    fam = file_families(run.tier)
+    # every file with few lines on an empty array; the neighbourhood of the canonical file on every pre-state and name relation
+    B = 100
+    for name_, files in fam[:1]:
+        for i in range(0, len(files), B):
+            T.append(lambda i=i, files=files: batch('%s/readfile/short/%d' % (prefix, i // B), 0, 0, 'a', files[i:i + B], i == 0, 'all files of <= %d lines, ids %d..' % (3 if run.tier == 'quick' else 4, i)))
+    pre = [(0, 0, 'a'), (1, 1, 'b'), (2, 1, 'a'), (2, 1, 'b'), (2, 1, 'c')] + ([(1, 0, 'a'), (1, 1, 'a'), (2, 2, 'c'), (2, 2, 'd')] if run.tier == 'thorough' else [])
+    NB = 30
+    for name_, files in fam[1:]:
+        for na, n, nm in pre:
+            if name_ != 'near' and (na, n, nm) not in ((0, 0, 'a'), (2, 1, 'b')): continue
+            for i in range(0, len(files), NB):
+                T.append(lambda name_=name_, files=files[i:i + NB], na=na, n=n, nm=nm, i=i: batch('%s/readfile/%s/cap%d_n%d_%s/%d' % (prefix, name_, na, n, nm, i // NB), na, n, nm, files, name_ == 'near' and (na, n, nm) == (0, 0, 'a') and i == 0,
+                                                                                'canonical file #S/#UCELL/#L/atom/# with one line missing, replaced or inserted' + ('' if name_ == 'near' else ', last line without newline')))
+    srcs = [run.harness('c14_read.c')] + aux
+    T.append(lambda: run.cbmc(prefix + '/readfile/canonical', srcs + [run.harness('c14_read_tramp.c')], 'harness_readfile_canonical', unwind=12, backends=('cadical',), functions=fns, leak=True, object_bits=12,
+                              flags=('--max-field-sensitivity-array-size', '600'), bounds='the one canonical file', what='the canonical single-crystal file (#S, #UCELL, #L, one atom line, a terminating comment) is accepted and yields that crystal'))
+    return T
+
+
 def check(run):
     run.assumptions += ['allocation never fails', 'inductive step: histories of any length are covered if the representation invariant is right; sizes beyond the bound are outside the solver claim (no size-dependent branch except n == n_alloc, exercised on both sides)',
-                        'Crystal_ReadFile (file I/O) is not encoded in this round']
-    run.parallel(ops(run))
+                        'Crystal_ReadFile: consistency obligations over a stream model, files enumerated by line kinds (not a file grammar: which files are accepted is not specified beyond the canonical one)']
+    run.parallel(ops(run) + readfile(run))
